@@ -21,6 +21,7 @@ import GqlProofs.EndToEnd.Parsed
 import GqlProofs.EndToEnd.Loaded
 import GqlProofs.EndToEnd.ParsedSchemaTree
 import GqlProofs.EndToEnd.LoadedWP
+import GqlProofs.Validate.OverlapIds
 /-
   C08 — validation accepts exactly what the rules allow.
 
@@ -390,8 +391,8 @@ theorem C08_default_LoneAnonymousOperation (s : Schema) (d : QueryDoc) (errs : L
   type, R8h; (selection set, fragment) comparisons are memoised, so a repeated comparison reports
   nothing — soundness is not affected by what the memos contain).
 
-  Full statement (NOT proved — completeness is explored against the executable naive spec by the
-  harness, DESIGN C08):
+  Full statement (PROVED at the end of this file as `C08_OverlappingFieldsCanBeMerged`, under the side
+  conditions the other rules guarantee; this section holds the soundness half, which needs none):
 
       theorem C08_Overlapping (s : Schema) (d : QueryDoc) (hs : Closed s) (hc : NoFragmentCycles d) :
           ruleErrors overlappingFieldsCanBeMerged s d = [] ↔ FieldSelectionMerging s d
@@ -1876,3 +1877,295 @@ end EndToEnd
 #print axioms C08_UniqueArgumentNames_parsed
 #print axioms C08_KnownDirectives_parsed
 #print axioms C08_UniqueInputFieldNames_parsed
+/-! ## OverlappingFieldsCanBeMerged: completeness -/
+section C08
+open Gql Gql.Validate Gql.Validate.Rules
+
+/-- **stage (a)** — documents WITHOUT fragment spreads: OverlappingFieldsCanBeMerged reports nothing iff
+    §5.3.2 (`Spec.fieldSelectionMerging`) holds.  Hypotheses, each guaranteed by other rules / by loaded
+    schemas: the prerequisites under which §5.3.2 is judged (`Spec.mergingJudged`), well-parentedness,
+    leaf field selections (ScalarLeafs), the type in scope is determined at every selection node
+    (a closed schema), the type table is keyed by definition names, unique fragment names and
+    every fragment used (with no spread in the document: there are no fragment definitions). -/
+theorem C08_overlap_complete_flat (s : Schema) (d : QueryDoc)
+    (hflat : Spec.allSpreadNames d = [])
+    (hj : Spec.mergingJudged s d = true) (hwp : Spec.wellParented s d = true)
+    (hleaf : Spec.leafFieldSelections s d = true)
+    (hparents : ∀ t ∈ Spec.docSels s d, t.parent.isSome) (hkeys : KeysOK s)
+    (hu : Spec.fragmentNameUniqueness d = true) (hused : Spec.fragmentsMustBeUsed d = true) :
+    validate [overlappingFieldsCanBeMerged] s d = .ok [] ↔ Spec.fieldSelectionMerging s d = true := by
+  have hfs : Spec.fieldSelections s d = true := by
+    unfold Spec.mergingJudged at hj
+    simp only [Bool.and_eq_true] at hj
+    exact hj.1.2
+  exact overlap_flat_iff s d ⟨hwp, hfs, hleaf, hparents, hkeys⟩ hflat hj hu hused
+
+#print axioms C08_overlap_complete_flat
+end C08
+
+section C08
+open Gql Gql.Validate Gql.Validate.Rules
+
+/-- a schema whose type table is keyed by the names of its definitions (`Closed.keys`) -/
+theorem C08_overlap_keysOK_of_consistent (s : Schema) (h : Gql.Spec.KeysConsistent s) : KeysOK s := by
+  intro n t ht
+  exact h.1 (n, t) (typesLookup_mem s.types n t ht)
+
+/-- **stages (b)/(c), the memos** — on a document without fragment cycles the memoised rule is
+    equivalent to its memo-free semantics: OverlappingFieldsCanBeMerged reports nothing iff no selection
+    set of `Spec.docSets` has a derivable conflict (`TopHolds`: the judgments follow the Go code without
+    `comparedFragmentPairs` / `comparedFieldsAndFragmentPairs`, and under the link table in which every
+    node is linked).  Neither memo, nor the order in which the walker links nodes, changes the verdict.
+    `MemoHyps`: the other rules' guarantees (`OvHyps`), no cycles, spreads defined, `ArgsSym`, and the
+    node identity assumption of the model (a selection set is identified by its first node). -/
+theorem C08_overlap_memo_free (s : Schema) (d : QueryDoc) (M : MemoHyps s d)
+    (hu : Spec.fragmentNameUniqueness d = true) (hused : Spec.fragmentsMustBeUsed d = true) :
+    validate [overlappingFieldsCanBeMerged] s d = .ok [] ↔
+      ∀ t ∈ Spec.docSets s d, ¬ TopHolds (envOf s d (fullLinks d)) t.parent t.sels :=
+  overlap_silent_iff s d M hu hused
+
+/-- the two directions against §5.3.2 of the memo-free semantics -/
+theorem C08_overlap_sound_spec (s : Schema) (d : QueryDoc) (S : SemHyps s d) (t : Spec.TSet) (ht : t ∈ Spec.docSets s d)
+    (h : TopHolds (envOf s d (fullLinks d)) t.parent t.sels) : SpecFalse s d :=
+  topHolds_specFalse S ht h
+
+/-- hypotheses of `C08_OverlappingFieldsCanBeMerged` that are not specification predicates: loaded
+    schemas (`C07`: closed field types, `String` present, keys consistent) and the node identity
+    assumption of the rule model (DESIGN §4; checked by the harness on every document,
+    `overlap-selection-identity`) in the form of ONE decidable property of the syntax tree: the
+    first nodes of the non-empty selection sets of the document start at pairwise different offsets -/
+structure C08OverlapHyps (s : Schema) (d : QueryDoc) : Prop where
+  fieldTypesClosed : Gql.Spec.ClosedFieldTypes s
+  hasString : (s.type? (str "String")).isSome
+  keys : KeysOK s
+  setStarts : SetStartsNodup d
+
+/-- **§5.3.2 — OverlappingFieldsCanBeMerged reports nothing iff `Spec.fieldSelectionMerging` holds**, for
+    documents without fragment cycles and with unique fragment names.  Every other hypothesis is a
+    specification predicate that another rule decides (known root types, known and composite type
+    conditions, defined spreads, fields defined, leaf selections, used fragments, unique argument and
+    input-field names), well-parentedness, or belongs to `C08OverlapHyps`. -/
+theorem C08_OverlappingFieldsCanBeMerged (s : Schema) (d : QueryDoc) (ho : C08OverlapHyps s d)
+    (hacyclic : Spec.noFragmentCycles d = true) (hfn : Spec.fragmentNameUniqueness d = true)
+    (hwp : Spec.wellParented s d = true) (hroot : Spec.knownRootType s d = true)
+    (hdef : Spec.fragmentSpreadTargetDefined d = true) (htc : Spec.fragmentSpreadTypeExistence s d = true)
+    (hcomp : Spec.fragmentsOnCompositeTypes s d = true) (hfs : Spec.fieldSelections s d = true)
+    (hleaf : Spec.leafFieldSelections s d = true) (hused : Spec.fragmentsMustBeUsed d = true)
+    (hargs : Spec.argumentUniqueness s d = true) (hinput : Spec.inputObjectFieldUniqueness s d = true) :
+    validate [overlappingFieldsCanBeMerged] s d = .ok [] ↔ Spec.fieldSelectionMerging s d = true := by
+  have hj : Spec.mergingJudged s d = true := by
+    unfold Spec.mergingJudged
+    unfold Spec.knownRootType at hroot
+    simp only [hdef, hacyclic, htc, hcomp, hfs, hroot, Bool.and_self]
+  have hparents : ∀ t ∈ Spec.docSels s d, t.parent.isSome := by
+    intro t ht
+    obtain ⟨q, hq, _⟩ := parents_present s d ho.fieldTypesClosed ho.hasString hroot hfs htc t ht
+    rw [hq]
+    rfl
+  exact overlap_iff s d ⟨hwp, hfs, hleaf, hparents, ho.keys⟩ hj hfn hused (argsSym_of_spec hargs hinput)
+    (argsRefl_of_spec hinput) (idsInj_of_starts ho.setStarts) (idsNested_of_starts ho.setStarts)
+
+/-- the 27 default rules -/
+def c08AllRules : List Rule :=
+  [ fieldsOnCorrectType, fragmentsOnCompositeTypes, knownArgumentNames, knownDirectives, knownFragmentNames,
+    knownRootType, knownTypeNames, loneAnonymousOperation, maxIntrospectionDepth, noFragmentCycles,
+    noUndefinedVariables, noUnusedFragments, noUnusedVariables, overlappingFieldsCanBeMerged, possibleFragmentSpreads,
+    providedRequiredArguments, scalarLeafs, singleFieldSubscriptions, uniqueArgumentNames, uniqueDirectivesPerLocation,
+    uniqueFragmentNames, uniqueInputFieldNames, uniqueOperationNames, uniqueVariableNames, valuesOfCorrectType,
+    variablesAreInputTypes, variablesInAllowedPosition ]
+
+theorem C08_all_rules_are_default_rules : c08AllRules.map (·.name) = defaultRules.map (·.name) := by decide
+
+theorem C08_all_rules_split (P : Rule → Prop) :
+    (∀ r ∈ c08AllRules, P r) ↔ (∀ r ∈ c08Rules, P r) ∧ P overlappingFieldsCanBeMerged := by
+  simp only [c08AllRules, c08Rules, List.mem_cons, List.not_mem_nil, or_false, forall_eq_or_imp, forall_eq]
+  constructor
+  · rintro ⟨r1, r2, r3, r4, r5, r6, r7, r8, r9, r10, r11, r12, r13, ro, r14, r15, r16, r17, r18, r19, r20, r21, r22, r23, rv, r24, r25⟩
+    exact ⟨⟨r1, r2, r3, r4, r5, r6, r7, r8, r9, r10, r11, r12, r13, r14, r15, r16, r17, r18, r19, r20, r21, r22, r23, rv, r24, r25⟩, ro⟩
+  · rintro ⟨⟨r1, r2, r3, r4, r5, r6, r7, r8, r9, r10, r11, r12, r13, r14, r15, r16, r17, r18, r19, r20, r21, r22, r23, rv, r24, r25⟩, ro⟩
+    exact ⟨r1, r2, r3, r4, r5, r6, r7, r8, r9, r10, r11, r12, r13, ro, r14, r15, r16, r17, r18, r19, r20, r21, r22, r23, rv, r24, r25⟩
+
+/-- **C08, verdict**: the 27 default rules, run together, accept exactly the documents that satisfy all
+    28 specification predicates (`Spec.specValid`), field merging (§5.3.2) included. -/
+theorem C08_default_rules_iff_spec (s : Schema) (d : QueryDoc) (h : C08Hyps s d) (ho : C08OverlapHyps s d) :
+    validate c08AllRules s d = .ok [] ↔ Spec.specValid s d = true := by
+  have hpart := C08_default_rules_iff_spec_partial s d h
+  rw [C08_rule_list_silent_iff c08Rules s d (by decide)] at hpart
+  rw [C08_rule_list_silent_iff c08AllRules s d (by decide), C08_all_rules_split, hpart]
+  have hpartc : ((Spec.specVerdicts s d).filter (fun p => !c08Uncovered.contains p.1)).all (·.2) = true ↔
+    (Spec.operationNameUniqueness d = true ∧ Spec.loneAnonymousOperation d = true ∧ Spec.singleRootField s d = true ∧
+     Spec.knownRootType s d = true ∧ Spec.fieldSelections s d = true ∧ Spec.leafFieldSelections s d = true ∧
+     Spec.argumentNames s d = true ∧ Spec.argumentUniqueness s d = true ∧ Spec.requiredArguments s d = true ∧
+     Spec.fragmentNameUniqueness d = true ∧ Spec.fragmentSpreadTypeExistence s d = true ∧
+     Spec.fragmentsOnCompositeTypes s d = true ∧ Spec.fragmentsMustBeUsed d = true ∧
+     Spec.fragmentSpreadTargetDefined d = true ∧ Spec.noFragmentCycles d = true ∧
+     Spec.fragmentSpreadIsPossible s d = true ∧
+     (Spec.valuesOfCorrectType s d && Spec.oneOfVariablesNonNull s d) = true ∧ Spec.inputObjectFieldUniqueness s d = true ∧
+     Spec.directivesAreDefined s d = true ∧ Spec.directivesInValidLocations s d = true ∧
+     Spec.directivesUniquePerLocation s d = true ∧ Spec.variableUniqueness d = true ∧
+     Spec.variablesAreInputTypes s d = true ∧ Spec.allVariableUsesDefined s d = true ∧
+     Spec.allVariablesUsed s d = true ∧ Spec.allVariableUsagesAllowed s d = true ∧ Spec.maxIntrospectionDepth d = true) := by
+    simp only [Spec.specVerdicts, c08Uncovered]
+    simp [List.filter, List.all]
+  have hfull : Spec.specValid s d = true ↔
+    (Spec.operationNameUniqueness d = true ∧ Spec.loneAnonymousOperation d = true ∧ Spec.singleRootField s d = true ∧
+     Spec.knownRootType s d = true ∧ Spec.fieldSelections s d = true ∧ Spec.fieldSelectionMerging s d = true ∧
+     Spec.leafFieldSelections s d = true ∧
+     Spec.argumentNames s d = true ∧ Spec.argumentUniqueness s d = true ∧ Spec.requiredArguments s d = true ∧
+     Spec.fragmentNameUniqueness d = true ∧ Spec.fragmentSpreadTypeExistence s d = true ∧
+     Spec.fragmentsOnCompositeTypes s d = true ∧ Spec.fragmentsMustBeUsed d = true ∧
+     Spec.fragmentSpreadTargetDefined d = true ∧ Spec.noFragmentCycles d = true ∧
+     Spec.fragmentSpreadIsPossible s d = true ∧
+     (Spec.valuesOfCorrectType s d && Spec.oneOfVariablesNonNull s d) = true ∧ Spec.inputObjectFieldUniqueness s d = true ∧
+     Spec.directivesAreDefined s d = true ∧ Spec.directivesInValidLocations s d = true ∧
+     Spec.directivesUniquePerLocation s d = true ∧ Spec.variableUniqueness d = true ∧
+     Spec.variablesAreInputTypes s d = true ∧ Spec.allVariableUsesDefined s d = true ∧
+     Spec.allVariablesUsed s d = true ∧ Spec.allVariableUsagesAllowed s d = true ∧ Spec.maxIntrospectionDepth d = true) := by
+    simp only [Spec.specValid, Spec.specVerdicts]
+    simp [List.all]
+  rw [hpartc, hfull]
+  constructor
+  · rintro ⟨⟨opNames, lone, root1, hroot, hfs, hleaf, argNames, hargs, reqArgs, hfn, htc, hcomp,
+      hused, hdef, hcyc, possible, valuesOK, hinput, dirsDef, dirsLoc, dirsUniq, varUniq, varTypes, varsDef, varsUsed, varsAllowed, depth⟩, hov⟩
+    have hm := (C08_OverlappingFieldsCanBeMerged s d ho hcyc hfn h.wellParented hroot hdef htc hcomp hfs hleaf hused
+      hargs hinput).1 hov
+    exact ⟨opNames, lone, root1, hroot, hfs, hm, hleaf, argNames, hargs, reqArgs, hfn, htc, hcomp,
+      hused, hdef, hcyc, possible, valuesOK, hinput, dirsDef, dirsLoc, dirsUniq, varUniq, varTypes, varsDef, varsUsed, varsAllowed, depth⟩
+  · rintro ⟨opNames, lone, root1, hroot, hfs, hm, hleaf, argNames, hargs, reqArgs, hfn, htc, hcomp,
+      hused, hdef, hcyc, possible, valuesOK, hinput, dirsDef, dirsLoc, dirsUniq, varUniq, varTypes, varsDef, varsUsed, varsAllowed, depth⟩
+    have hov := (C08_OverlappingFieldsCanBeMerged s d ho hcyc hfn h.wellParented hroot hdef htc hcomp hfs hleaf hused
+      hargs hinput).2 hm
+    exact ⟨⟨opNames, lone, root1, hroot, hfs, hleaf, argNames, hargs, reqArgs, hfn, htc, hcomp,
+      hused, hdef, hcyc, possible, valuesOK, hinput, dirsDef, dirsLoc, dirsUniq, varUniq, varTypes, varsDef, varsUsed, varsAllowed, depth⟩, hov⟩
+
+#print axioms C08_overlap_memo_free
+#print axioms C08_overlap_sound_spec
+#print axioms C08_OverlappingFieldsCanBeMerged
+#print axioms C08_all_rules_are_default_rules
+#print axioms C08_default_rules_iff_spec
+end C08
+
+/- non-vacuity of `C08_OverlappingFieldsCanBeMerged` (kernel-checked): documents WITH fragment spreads -/
+namespace OverlapCompleteWitness
+open Gql Gql.Validate Gql.Validate.Witness Gql.Validate.OverlapWitness
+
+/-- `type Query { id: ID u: Node x: Int }  interface Node { id: ID u: Node x: Int }` with the scalars
+    `ID`, `Int`, `String` -/
+def schema : Schema :=
+  { Schema.empty with
+    query := some (str "Query"),
+    types := [(str "ID", scalar "ID"), (str "Int", scalar "Int"), (str "String", scalar "String"),
+              (str "Node", composite .interface "Node"), (str "Query", composite .object "Query")] }
+
+def frag (n : String) (sel : Selections) (o : Nat) : FragmentDef :=
+  { name := str n, vars := [], typeCond := str "Node", dirs := [], sel := sel, pos := at' o }
+
+def query (sel : Selections) : OperationDef :=
+  { op := str "query", name := [], vars := [], dirs := [], sel := sel, pos := at' 0 }
+
+/-- `{ u { a: id ...F ...G } }  fragment F on Node { a: id ...G }  fragment G on Node { u { a: id } }` -/
+def docGood : QueryDoc :=
+  { ops := [query (.cons (.field (str "u") (str "u") [] []
+              (.cons (leaf "a" "id" 6) (.cons (.spread (str "F") [] (at' 12)) (.cons (.spread (str "G") [] (at' 17)) .nil))) (at' 2)) .nil)],
+    frags := [frag "F" (.cons (leaf "a" "id" 45) (.cons (.spread (str "G") [] (at' 51)) .nil)) 26,
+              frag "G" (.cons (.field (str "u") (str "u") [] [] (.cons (leaf "a" "id" 82) .nil) (at' 78)) .nil) 59] }
+
+/-- `{ u { a: id ...F } }  fragment F on Node { ...G }  fragment G on Node { a: x }` — the conflict is
+    between a field of the operation and a field two spreads away -/
+def docBad : QueryDoc :=
+  { ops := [query (.cons (.field (str "u") (str "u") [] []
+              (.cons (leaf "a" "id" 6) (.cons (.spread (str "F") [] (at' 12)) .nil)) (at' 2)) .nil)],
+    frags := [frag "F" (.cons (.spread (str "G") [] (at' 40)) .nil) 21,
+              frag "G" (.cons (leaf "a" "x" 68) .nil) 49] }
+
+theorem hyps (d : QueryDoc) (h : SetStartsNodup d) : C08OverlapHyps schema d :=
+  { fieldTypesClosed := by decide +kernel
+    hasString := by decide +kernel
+    keys := C08_overlap_keysOK_of_consistent schema ⟨by decide +kernel, by decide +kernel, by decide +kernel, by decide +kernel⟩
+    setStarts := h }
+
+end OverlapCompleteWitness
+
+open OverlapCompleteWitness in
+/-- all hypotheses of `C08_OverlappingFieldsCanBeMerged` hold for `docGood`, and both sides are true … -/
+example : SetStartsNodup docGood ∧
+    (Spec.noFragmentCycles docGood && Spec.fragmentNameUniqueness docGood && Spec.wellParented schema docGood &&
+     Spec.knownRootType schema docGood && Spec.fragmentSpreadTargetDefined docGood &&
+     Spec.fragmentSpreadTypeExistence schema docGood && Spec.fragmentsOnCompositeTypes schema docGood &&
+     Spec.fieldSelections schema docGood && Spec.leafFieldSelections schema docGood && Spec.fragmentsMustBeUsed docGood &&
+     Spec.argumentUniqueness schema docGood && Spec.inputObjectFieldUniqueness schema docGood) = true ∧
+    Gql.Validate.validate [Gql.Validate.Rules.overlappingFieldsCanBeMerged] schema docGood = .ok [] ∧
+    Spec.fieldSelectionMerging schema docGood = true := by
+  refine ⟨by decide +kernel, by decide +kernel, by decide +kernel, by decide +kernel⟩
+
+open OverlapCompleteWitness in
+/-- … they hold for `docBad`, and both sides are false (the rule reports the conflict found through
+    two fragment spreads) -/
+example : SetStartsNodup docBad ∧
+    (Spec.noFragmentCycles docBad && Spec.fragmentNameUniqueness docBad && Spec.wellParented schema docBad &&
+     Spec.knownRootType schema docBad && Spec.fragmentSpreadTargetDefined docBad &&
+     Spec.fragmentSpreadTypeExistence schema docBad && Spec.fragmentsOnCompositeTypes schema docBad &&
+     Spec.fieldSelections schema docBad && Spec.leafFieldSelections schema docBad && Spec.fragmentsMustBeUsed docBad &&
+     Spec.argumentUniqueness schema docBad && Spec.inputObjectFieldUniqueness schema docBad) = true ∧
+    Gql.Validate.validate [Gql.Validate.Rules.overlappingFieldsCanBeMerged] schema docBad ≠ .ok [] ∧
+    Spec.fieldSelectionMerging schema docBad = false := by
+  refine ⟨by decide +kernel, by decide +kernel, by decide +kernel, by decide +kernel⟩
+
+open OverlapCompleteWitness in
+/-- the theorem applied to the two witnesses -/
+example : (Gql.Validate.validate [Gql.Validate.Rules.overlappingFieldsCanBeMerged] schema docGood = .ok [] ↔
+      Spec.fieldSelectionMerging schema docGood = true) ∧
+    (Gql.Validate.validate [Gql.Validate.Rules.overlappingFieldsCanBeMerged] schema docBad = .ok [] ↔
+      Spec.fieldSelectionMerging schema docBad = true) :=
+  ⟨C08_OverlappingFieldsCanBeMerged schema docGood (hyps docGood (by decide +kernel)) (by decide +kernel) (by decide +kernel)
+      (by decide +kernel) (by decide +kernel) (by decide +kernel) (by decide +kernel) (by decide +kernel) (by decide +kernel)
+      (by decide +kernel) (by decide +kernel) (by decide +kernel) (by decide +kernel),
+   C08_OverlappingFieldsCanBeMerged schema docBad (hyps docBad (by decide +kernel)) (by decide +kernel) (by decide +kernel)
+      (by decide +kernel) (by decide +kernel) (by decide +kernel) (by decide +kernel) (by decide +kernel) (by decide +kernel)
+      (by decide +kernel) (by decide +kernel) (by decide +kernel) (by decide +kernel)⟩
+
+section C08
+open Gql Gql.Validate Gql.Validate.Rules
+
+/-- `c08AllRules` IS the default rule list of the library -/
+theorem C08_all_rules_eq_default : defaultRules = c08AllRules := rfl
+
+/-- **C08**: `validate` with the default rules accepts exactly the documents that satisfy all
+    specification predicates -/
+theorem C08_validate_default_iff_spec (s : Schema) (d : QueryDoc) (h : C08Hyps s d) (ho : C08OverlapHyps s d) :
+    validate defaultRules s d = .ok [] ↔ Spec.specValid s d = true := by
+  rw [C08_all_rules_eq_default]
+  exact C08_default_rules_iff_spec s d h ho
+
+#print axioms C08_validate_default_iff_spec
+end C08
+
+namespace OverlapCompleteWitness
+open Gql Gql.Validate Gql.Validate.Witness Gql.Validate.OverlapWitness
+
+/-- `{ id }  fragment F on Node { u { a: id a: x } }` — the fragment is never spread -/
+def docUnused : QueryDoc :=
+  { ops := [query (.cons (leaf "id" "id" 2) .nil)],
+    frags := [frag "F" (.cons (.field (str "u") (str "u") [] [] (.cons (leaf "a" "id" 31) (.cons (leaf "a" "x" 37) .nil)) (at' 27)) .nil) 7] }
+
+end OverlapCompleteWitness
+
+open OverlapCompleteWitness in
+/-- the hypothesis `Spec.fragmentsMustBeUsed` of `C08_OverlappingFieldsCanBeMerged` is NEEDED (the recorded
+    rule-level difference): inside a fragment definition that no operation reaches the `field` observer of the
+    rule does nothing (`walker.CurrentOperation == nil`), so the conflict in the sub-selection of `u` is not
+    reported, while §5.3.2 judges every selection set of the document.  All other hypotheses hold; the
+    document is rejected by NoUnusedFragments. -/
+theorem C08_overlap_unused_fragment_counterexample :
+    SetStartsNodup docUnused ∧
+    (Spec.noFragmentCycles docUnused && Spec.fragmentNameUniqueness docUnused && Spec.wellParented schema docUnused &&
+     Spec.knownRootType schema docUnused && Spec.fragmentSpreadTargetDefined docUnused &&
+     Spec.fragmentSpreadTypeExistence schema docUnused && Spec.fragmentsOnCompositeTypes schema docUnused &&
+     Spec.fieldSelections schema docUnused && Spec.leafFieldSelections schema docUnused &&
+     Spec.argumentUniqueness schema docUnused && Spec.inputObjectFieldUniqueness schema docUnused) = true ∧
+    Spec.fragmentsMustBeUsed docUnused = false ∧
+    Gql.Validate.validate [Gql.Validate.Rules.overlappingFieldsCanBeMerged] schema docUnused = .ok [] ∧
+    Spec.fieldSelectionMerging schema docUnused = false := by
+  refine ⟨by decide +kernel, by decide +kernel, by decide +kernel, by decide +kernel, by decide +kernel⟩
+
+#print axioms C08_overlap_unused_fragment_counterexample
